@@ -164,6 +164,7 @@ func (s *swarm[A]) MTU() int {
 
 func (s *swarm[A]) Close() error {
 	s.cf()
+	s.tells.CloseWithError(p2p.ErrClosed)
 	return s.Swarm.Close()
 }
 
